@@ -248,9 +248,9 @@ def random_history(rng, n):
         elif r < 0.68:
             ops.append((4, k, None, b"cd"))
         elif r < 0.72:
-            ops.append((5, k, e, None))
+            ops.append((5, k, e, rng.choice([None, b"d5"])))
         elif r < 0.76:
-            ops.append((6, k, e, None, None))
+            ops.append((6, k, e, rng.choice([None, b"d6"]), rng.choice([None, b"c6"])))
         elif r < 0.82:
             ops.append((rng.choice([7, 8]), False, rng.sample(KEYS, rng.randrange(0, 4))))
         elif r < 0.87:
@@ -429,6 +429,9 @@ def search(ctx):
     for d in (0, 10 ** 6):
         for nr in (None, False, True, OMIT):
             targeted.append([(0, 0, b"a", b"5", 0, False, None), (14, d, nr), ("tick", 3), (3, b"a", b"dflt"), (0, 1, b"a", b"new", 0, False, None), (3, b"a", None)])
+    # the miss value of every read with DIFFERENT defaults for the value and the cas token
+    targeted.append([(3, b"zz", b"d3"), (4, b"zz", b"d4", b"c4"), (4, b"zz", b"d4", None), (5, b"zz", 9, b"d5"), (6, b"zz", 9, b"d6", b"c6"), (6, b"zz", 9, b"d6", None),
+                     (6, b"zz", 9, None, b"c6")])
     nt = len(targeted)
     for i in range(nt + (400 if ctx.quick else 6000)):
         c = cfgs[i % 5]
